@@ -28,11 +28,39 @@ Print Assumptions C10_compute_once.
 Theorem C10_notify_once_after : forall s o,
   let s' := fst (step s o) in
   match out s, out s' with
-  | None, Some oc => log s' = log s ++ map (fun sb => (fst sb, oc)) (subs s)
+  | None, Some oc => log s' = log s ++ notes (subs s) oc /\ subs s' = after_notify (subs s)
   | _, _ => log s' = log s
   end.
 Proof. exact notify_once_after. Qed.
 Print Assumptions C10_notify_once_after.
+
+(* re-entrant subscribers: the notification loop calls exactly the subscribers that were registered
+   when the completion began (the snapshot), each once, in order - whatever their scripts do to the
+   live subscription list (unsubscribe themselves / a later / an earlier one, subscribe, raise) *)
+Theorem C10_notify_snapshot : forall snap live, snd (notify snap live) = map fst snap.
+Proof. exact notify_snapshot. Qed.
+Print Assumptions C10_notify_snapshot.
+
+Theorem C10_notify_plain_keeps_subscribers : forall snap live,
+  forallb (fun sb => plain (snd sb)) snap = true -> fst (notify snap live) = live.
+Proof. exact notify_plain. Qed.
+Print Assumptions C10_notify_plain_keeps_subscribers.
+
+Theorem C10_subscribers_change_only_by : forall s o,
+  subs (fst (step s o)) = subs s \/
+  (exists id k, o = OSubscribe id k /\ subs (fst (step s o)) = subs s ++ [(id, k)]) \/
+  (out s = None /\ out (fst (step s o)) <> None /\ subs (fst (step s o)) = after_notify (subs s)).
+Proof. exact subs_step. Qed.
+Print Assumptions C10_subscribers_change_only_by.
+
+Theorem C10_renotify_after_reset : forall s v e,
+  out s = None ->
+  let s1 := fst (step s (OSetValue v)) in
+  let s3 := fst (step (fst (step s1 OReset)) (OSetError e)) in
+  log s3 = log s ++ notes (subs s) (Ok v) ++ notes (after_notify (subs s)) (Err e) /\
+  subs s3 = after_notify (after_notify (subs s)).
+Proof. exact renotify_after_reset. Qed.
+Print Assumptions C10_renotify_after_reset.
 
 Theorem C10_const_error_complete : forall p v e,
   out (init KConst p (Ok v)) = Some (Ok v) /\ out (init KError p (Err e)) = Some (Err e).
@@ -52,17 +80,17 @@ Print Assumptions C10_task_single_assignment.
 Theorem C10_task_ext_set_completes : forall c s, tout s = None ->
   (forall v, let '(s', r) := istep c s (ISetValue v) in
      tout s' = Some (Ok v) /\ tgen s' = None /\ tlog s' = tlog s ++ notes (tsubs s) (Ok v) /\
-     r = close_result c) /\
+     tsubs s' = after_notify (tsubs s) /\ r = close_result c) /\
   (forall e, let '(s', r) := istep c s (ISetError e) in
      tout s' = Some (Err e) /\ tgen s' = None /\ tlog s' = tlog s ++ notes (tsubs s) (Err e) /\
-     r = close_result c).
+     tsubs s' = after_notify (tsubs s) /\ r = close_result c).
 Proof. exact ext_set_completes. Qed.
 Print Assumptions C10_task_ext_set_completes.
 
 Theorem C10_task_inner_notify_once_after : forall c s o,
   let s' := fst (istep c s o) in
   match tout s, tout s' with
-  | None, Some oc => tlog s' = tlog s ++ notes (tsubs s) oc /\ tsubs s' = tsubs s
+  | None, Some oc => tlog s' = tlog s ++ notes (tsubs s) oc /\ tsubs s' = after_notify (tsubs s)
   | _, _ => tlog s' = tlog s
   end.
 Proof. exact inner_notify_once_after. Qed.
